@@ -27,6 +27,8 @@ use std::ops::Deref;
 use std::ops::DerefMut;
 use std::path::Path;
 use std::sync::Arc;
+use std::sync::atomic::AtomicBool;
+use std::sync::atomic::Ordering;
 use std::sync::mpsc::Receiver;
 use std::sync::mpsc::Sender;
 
@@ -34,6 +36,14 @@ pub struct Output {
     path: Arc<Path>,
     creator: FileCreator,
     config: OutputConfig,
+
+    /// Whether we've started creating (or modifying) the file at `path`.
+    creation_started: AtomicBool,
+
+    /// Whether the output file has been completely written. If we're dropped after creation
+    /// started, but before this is set, then we delete the output file so that a failed link
+    /// doesn't leave a partially written output behind.
+    completed: AtomicBool,
 }
 
 #[derive(Clone, Copy)]
@@ -140,6 +150,8 @@ impl Output {
                 should_write_trace: args.common().write_trace,
                 use_mmap: args.common().mmap_output_file,
             },
+            creation_started: AtomicBool::new(false),
+            completed: AtomicBool::new(false),
         }
     }
 
@@ -149,6 +161,7 @@ impl Output {
                 sized_output_sender,
                 sized_output_recv: _,
             } => {
+                self.creation_started.store(true, Ordering::Relaxed);
                 let sender = sized_output_sender
                     .take()
                     .expect("set_size must only be called once");
@@ -211,6 +224,7 @@ impl Output {
                 wait_for_sized_output(sized_output_recv)?
             }
             FileCreator::Regular { file_size } => {
+                self.creation_started.store(true, Ordering::Relaxed);
                 delete_old_output(&self.path);
                 let file_size = file_size.context("set_size was never called")?;
                 self.create_file_non_lazily(file_size)?
@@ -227,12 +241,37 @@ impl Output {
             drop(sized_output);
         }
 
+        self.completed.store(true, Ordering::Relaxed);
+
         Ok(())
     }
 
     fn create_file_non_lazily(&self, file_size: u64) -> Result<SizedOutput> {
         timing_phase!("Create output file");
         SizedOutput::new(self.path.clone(), self.config, file_size)
+    }
+}
+
+impl Drop for Output {
+    fn drop(&mut self) {
+        if self.completed.load(Ordering::Relaxed) || !self.creation_started.load(Ordering::Relaxed)
+        {
+            return;
+        }
+
+        // Linking failed after we started creating the output file. Wait for any in-progress
+        // background creation to finish, so that we don't race with it, then delete the file.
+        if let FileCreator::Background {
+            sized_output_recv, ..
+        } = &self.creator
+        {
+            drop(sized_output_recv.recv());
+        }
+
+        // Only delete regular files. We don't want to delete e.g. /dev/null.
+        if std::fs::symlink_metadata(&self.path).is_ok_and(|m| m.file_type().is_file()) {
+            let _ = std::fs::remove_file(&self.path);
+        }
     }
 }
 
